@@ -28,8 +28,9 @@ ASSUMPTIONS = [
     "compression magic is asserted for writers documented to compress by suffix (csv, json, pickle); for npz and parquet only the round trip is asserted",
     "dtype equality for Parquet is asserted for bool/int/float/string/date/datetime columns",
 ]
-REACH = {"quick": {"fmt:pickle": 150, "fmt:npz": 150, "fmt:parquet": 150, "fmt:csv": 300, "fmt:json": 150, "fmt:lod-json": 80, "fmt:lod-csv": 80,
-                   "fmt:lod-pickle": 80, "suffix:.gz": 150, "suffix:.bz2": 150, "suffix:.xz": 150, "string-na-first": 100, "magic-checked": 300, "big-file": 3, "lod-history": 60}}
+# floors are at least 7 standard deviations below the mean count of a quick run (a floor that the unchanged tree can miss by chance is a broken check)
+REACH = {"quick": {"fmt:pickle": 80, "fmt:npz": 80, "fmt:parquet": 80, "fmt:csv": 220, "fmt:json": 80, "fmt:lod-json": 70, "fmt:lod-csv": 70,
+                   "fmt:lod-pickle": 70, "suffix:.gz": 150, "suffix:.bz2": 150, "suffix:.xz": 150, "string-na-first": 60, "magic-checked": 300, "big-file": 2, "lod-history": 50}}
 
 MAGIC = {".gz": b"\x1f\x8b", ".bz2": b"BZh", ".xz": b"\xfd7zXZ"}
 IO_STR = ["abc", "a,b", 'say "hi"', "line1\nline2", "semi;colon", "tab\there", "pipe|d", "ünï", "日本語", " lead", "trail ", "'single'",
@@ -64,7 +65,7 @@ def _big_csv(rng):
     return {"fmt": "csv", "suffix": rng.choice(["", "", ".gz"]), "opts": rng.choice([{}, {"sep": ";"}]), "spec": spec, "big": True}
 
 def generate(rng, tier):
-    if rng.random() < 0.006:
+    if rng.random() < 0.014:
         return _big_csv(rng)
     fmt = rng.choice(FORMATS)
     suffix = rng.choice(["", "", ".gz", ".bz2", ".xz"])
